@@ -157,6 +157,19 @@ public:
     reset_limiters();
   }
 
+  // restart from the state of an execution (primitive and conserved variables
+  // only: everything else is scratch space of a step and starts clean)
+  void load(const std::vector<HydroVariables *> &cells) {
+    for (int g = 0; g < P.N; ++g) {
+      c[g] = HydroVariables();
+      for (int j = 0; j < 5; ++j) {
+        c[g].primitives(j) = cells[g]->primitives(j);
+        c[g].conserved(j) = cells[g]->conserved(j);
+      }
+    }
+    reset_limiters();
+  }
+
   void reset_limiters() {
     for (int k = 0; k < 5 * P.N; ++k) {
       lim[2 * k] = DBL_MAX;
